@@ -52,7 +52,7 @@ Proof.
   - unfold do_change in H. repeat break_hyp H; inv H; auto. cbn. apply has_aput. auto.
   - inv H. apply fold_keeps; auto. intros d0 [b [m a]] Hx. unfold update_one. break_goal; auto. cbn. apply has_aput. auto.
   - unfold do_allocrs in H. repeat break_hyp H; inv H; auto.
-  - unfold do_commit in H. repeat break_hyp H; inv H; auto. cbn. apply fold_aput_keeps. auto.
+  - unfold do_commit, do_commit_unchecked in H. repeat break_hyp H; inv H; auto. cbn. apply fold_aput_keeps. auto.
   - unfold do_rshosts in H. repeat break_hyp H; inv H; auto.
   - unfold do_updatesc in H. repeat break_hyp H; inv H; auto. eapply put_blob_keeps; eauto.
   - inv H; auto.
@@ -166,18 +166,25 @@ Definition f6_cmds : list (N * cmd) :=
    (8, CCommitRS (2147483649, 1) c_ClassRS63 [1; 2; 3; 4; 5; 6; 7; 8; 9]
                  [[mkET 4294967297 0 0 100 2]; []; []; []; []; []])].
 
+Definition f6_commit_args := ((2147483649, 1) : chunkid, c_ClassRS63, [1; 2; 3; 4; 5; 6; 7; 8; 9],
+                              [[mkET 4294967297 0 0 100 2]; []; []; []; []; []]).
+
+(* the command WITHOUT the version check (PutRSChunk alone, the code before commit defd77a) accepts the stale commit and
+   lowers the version from 3 to 2; the repaired command refuses it with ErrConflictingState and changes nothing *)
 Lemma commit_lowers_version_witness :
   exists d d' b b' t t',
     dapply_all d_init (firstn 7 f6_cmds) = Some (d, [[2; 1]; [3; 0]; [5; 4294967297; 0]; [6; 0; 1]; [1; 0]; [1; 0]; [9; 0; 2147483649; 1]]) /\
-    dapply d 8 (CCommitRS (2147483649, 1) c_ClassRS63 [1; 2; 3; 4; 5; 6; 7; 8; 9]
-                 [[mkET 4294967297 0 0 100 2]; []; []; []; []; []]) = Some (d', [1; e_NoError]) /\
+    do_commit_unchecked d (2147483649, 1) c_ClassRS63 [1; 2; 3; 4; 5; 6; 7; 8; 9]
+                 [[mkET 4294967297 0 0 100 2]; []; []; []; []; []] = Some (d', [1; e_NoError]) /\
     aget 4294967297 (d_blobs d) = Some b /\ aget 4294967297 (d_blobs d') = Some b' /\
     nth_error (b_tracts b) 0 = Some t /\ nth_error (b_tracts b') 0 = Some t' /\
-    t_version t = 3 /\ t_version t' = 2.
+    t_version t = 3 /\ t_version t' = 2 /\
+    do_commit d (2147483649, 1) c_ClassRS63 [1; 2; 3; 4; 5; 6; 7; 8; 9]
+                 [[mkET 4294967297 0 0 100 2]; []; []; []; []; []] = Some (d, [1; e_ConflictingState]).
 Proof.
   pose (d := match dapply_all d_init (firstn 7 f6_cmds) with Some (d, _) => d | None => d_init end).
-  pose (d' := match dapply d 8 (CCommitRS (2147483649, 1) c_ClassRS63 [1; 2; 3; 4; 5; 6; 7; 8; 9]
-                 [[mkET 4294967297 0 0 100 2]; []; []; []; []; []]) with Some (d', _) => d' | None => d_init end).
+  pose (d' := match do_commit_unchecked d (2147483649, 1) c_ClassRS63 [1; 2; 3; 4; 5; 6; 7; 8; 9]
+                 [[mkET 4294967297 0 0 100 2]; []; []; []; []; []] with Some (d', _) => d' | None => d_init end).
   pose (bb := fun x : dstate => match aget 4294967297 (d_blobs x) with Some b => b | None => mkBlob 9 9 9 9 9 9 9 [] end).
   pose (tt := fun x : dstate => match nth_error (b_tracts (bb x)) 0 with Some t => t | None => mkTract [] 99 None None None None end).
   exists d, d', (bb d), (bb d'), (tt d), (tt d'). repeat (match goal with |- _ /\ _ => split end); vm_compute; reflexivity.
